@@ -200,7 +200,8 @@ func validateResponseHeader(headerName string, headerRef *openapi3.HeaderRef, in
 	}
 
 	if found {
-		if err = headerRef.Value.Schema.Value.VisitJSON(decodedValue, opts...); err != nil {
+		// a response header is read as a response, like the body (write-only properties are forbidden and not required)
+		if err = headerRef.Value.Schema.Value.VisitJSON(decodedValue, append(opts[:len(opts):len(opts)], openapi3.VisitAsResponse())...); err != nil {
 			return &ResponseError{
 				Input:  input,
 				Reason: fmt.Sprintf("response header %q doesn't match schema", headerName),
